@@ -32,9 +32,10 @@ VARIABLES l,        \* current log line
           floor,    \* highest TXID on the replica when lost/reset became true
           idleN,    \* number of consecutive idle syncs (no application step in between) so far
           idleNew,  \* level-0 files created by the idle syncs after the second one
+          pendLoss, \* an in-flight litestream checkpoint has destroyed committed frames that no level-0 file covers (yet)
           sameSince,\* the same DB object was reopened while `lost`
           hz        \* shapes of known findings (known_findings.json "signature") seen so far in this trace
-vars == <<l, lost, reset, floor, idleN, idleNew, sameSince, hz>>
+vars == <<l, lost, reset, floor, idleN, idleNew, pendLoss, sameSince, hz>>
 
 cur  == Log[l]
 prev == Log[l - 1]
@@ -43,7 +44,10 @@ IsStep == cur.op # "Reset"
 IsApp(e) == e.op \in {"AppWrite", "AppWrite2", "AppGrow", "AppGrowWrite", "AppShrink", "AppDelete", "AppReclaim", "AppVacuum", "AppDDL", "AppBegin", "AppSpill",
                       "AppCommit", "AppRollback", "AppCheckpoint", "AppClose", "AppOpen", "ReaderOpen", "ReaderClose"}
 IsLs(e)  == e.op \in {"LsOpen", "LsSync", "LsReplicaSync", "LsSyncAndWait", "LsCheckpoint", "LsClose", "LsReset",
-                      "Snapshot", "Compact"}
+                      "Snapshot", "Compact", "CkStart", "CkStep"}
+\* a litestream checkpoint, either as one call (LsCheckpoint) or step by step (CkStart, CkStep: res = "at" while parked at a hook)
+IsChk(e) == e.op \in {"LsCheckpoint", "CkStart", "CkStep"}
+ChkFailed(e) == IsChk(e) /\ e.res \notin {"ok", "skip", "at"}
 IsSync(e) == e.op \in {"LsSync", "LsSyncAndWait"}
 
 \* level-0 files litestream CREATED in a step (a baseline fetched from the replica by checkDatabaseBehindReplica is a copy, not a creation)
@@ -62,14 +66,18 @@ Unsynced(k) ==
   /\ w.exists /\ w.commit > 0
   /\ IF w.gen = c.gen THEN w.commit > c.end ELSE TRUE
 
-Init == l = 1 /\ lost = FALSE /\ reset = FALSE /\ floor = 0 /\ idleN = 0 /\ idleNew = 0 /\ sameSince = FALSE /\ hz = {}
+Init == l = 1 /\ lost = FALSE /\ reset = FALSE /\ floor = 0 /\ idleN = 0 /\ idleNew = 0 /\ pendLoss = FALSE /\ sameSince = FALSE /\ hz = {}
 
 Next ==
   /\ l < Len(Log) /\ l' = l + 1
   /\ LET e == Log[l + 1]  p == Log[l] IN
-     IF e.op = "Reset" THEN lost' = FALSE /\ reset' = FALSE /\ floor' = 0 /\ idleN' = 0 /\ idleNew' = 0 /\ sameSince' = FALSE /\ hz' = {}
+     IF e.op = "Reset" THEN lost' = FALSE /\ reset' = FALSE /\ floor' = 0 /\ idleN' = 0 /\ idleNew' = 0 /\ pendLoss' = FALSE /\ sameSince' = FALSE /\ hz' = {}
      ELSE
-       LET destroyed == IsApp(e) /\ e.res # "skip" /\ (e.wal.gen # p.wal.gen \/ ~e.wal.exists) /\ Unsynced(l)
+       LET genChanged == e.wal.gen # p.wal.gen \/ ~e.wal.exists
+           chkLoss   == IsChk(e) /\ genChanged /\ Unsynced(l)        \* litestream's own PRAGMA removed frames it had not copied
+           \* ... which is only a loss if that checkpoint then fails before its boundary snapshot (G1)
+           byChk     == ChkFailed(e) /\ (pendLoss \/ chkLoss)
+           destroyed == (IsApp(e) /\ e.res # "skip" /\ genChanged /\ Unsynced(l)) \/ byChk
            \* the database file itself was replaced by another version: whatever the WAL looks like, the old chain is void.
            \* (A lost/reset local state directory alone is NOT in this class: litestream re-fetches its last file from the
            \* replica and may legitimately prove continuity against an untouched WAL.)
@@ -81,6 +89,7 @@ Next ==
        IN /\ lost'  = (lost0 \/ destroyed)
           /\ reset' = (reset0 \/ stateLost)
           /\ floor' = IF (destroyed \/ stateLost) /\ ~lost0 /\ ~reset0 THEN p.rpos ELSE floor
+          /\ pendLoss' = IF IsChk(e) THEN (IF e.res = "at" THEN (pendLoss \/ chkLoss) ELSE FALSE) ELSE pendLoss
           /\ sameSince' = IF Len(Created(e)) > 0 THEN FALSE
                            ELSE (IF Len(Created(p)) > 0 THEN FALSE ELSE sameSince) \/ (e.op = "LsOpen" /\ e.arg = "same" /\ e.res = "ok" /\ lost0)
           /\ hz' = hz
@@ -88,6 +97,8 @@ Next ==
                \cup (IF (Len(Created(e)) > 0 \/ e.ack) /\ lost0 /\ sameSince /\ p.wal.slots < c.end THEN {"F1"} ELSE {})
                \* F2: the WAL was restarted and the new generation is still shorter than the old cursor
                \cup (IF (Len(Created(e)) > 0 \/ e.ack) /\ lost0 /\ p.wal.exists /\ p.wal.gen # c.gen /\ p.wal.valid < c.end THEN {"F2"} ELSE {})
+               \* G1: a litestream checkpoint failed after its PRAGMA had destroyed frames that were never copied
+               \cup (IF byChk THEN {"G1"} ELSE {})
                \* F3: local state reset on a running DB (what auto-recover does)
                \cup (IF e.op = "LsReset" /\ e.res = "ok" /\ p.up THEN {"F3"} ELSE {})
           /\ idleN' = IF IsSync(e) /\ e.res = "ok" THEN idleN + 1 ELSE IF IsApp(e) /\ e.res # "skip" THEN 0 ELSE idleN
